@@ -62,6 +62,13 @@ class FolKB:
                 o = L.Not(ops[0], **kw)
             elif k in ("and", "or", "implies"):
                 o = {"and": L.And, "or": L.Or, "implies": L.Implies}[k](*ops, **kw)
+            elif k in ("iff", "xor"):
+                o = (L.Iff if k == "iff" else L.XOr)(*ops, **kw)
+                # the generated inner formulae are ordinary members of the model: register them before the composite
+                inner = [o.Imp1, o.Imp2] if k == "iff" else list(o.conjunctions) + list(o.negations) + [o.disjunction]
+                base = 1000 + 50 * n["id"]
+                for t, x in enumerate(inner):
+                    self._reg(base + t, x)
             elif k in ("forall", "exists"):
                 cls = L.Forall if k == "forall" else L.Exists
                 if n.get("fully_grounded"):
@@ -106,7 +113,7 @@ class FolKB:
         o = self.obj[i]
         cn = type(o).__name__
         kind = {"Predicate": "pred", "Not": "not", "And": "and", "Or": "or", "Implies": "implies",
-                "Forall": "forall", "Exists": "exists"}[cn]
+                "Forall": "forall", "Exists": "exists", "Iff": "and", "XOr": "and"}[cn]
         ops = [self.idof[id(x)] for x in o.operands]
         neuron = o.neuron
         alpha = impl.fr(neuron.alpha)
@@ -168,8 +175,23 @@ class FolKB:
     def registered_ids(self):
         return [self.idof[id(o)] for o in self.model.nodes.values() if id(o) in self.idof]
 
+    def expand(self, i, direction):
+        """a public call on a composite formula (Iff / XOr) as the list of primitive node calls it performs"""
+        o = self.obj[i]
+        cn = type(o).__name__
+        if cn == "Iff":
+            inner = [self.idof[id(o.Imp1)], self.idof[id(o.Imp2)]]
+            return inner + [i] if direction.startswith("up") else [i] + inner
+        if cn == "XOr":
+            cj = [self.idof[id(x)] for x in o.conjunctions]
+            ng = [self.idof[id(x)] for x in o.negations]
+            dj = [self.idof[id(o.disjunction)]]
+            return cj + ng + dj + [i] if direction.startswith("up") else [i] + ng + cj + dj
+        return [i]
+
     def calls(self, log, direction):
-        return [self.idof[e[2]] for e in log if e[0] == 0 and e[1] == direction and e[2] in self.idof]
+        top = [self.idof[e[2]] for e in log if e[0] == 0 and e[1] == direction and e[2] in self.idof]
+        return [j for i in top for j in self.expand(i, direction)]
 
     def cname(self, g):
         names = tuple(f"c{k}" for k in g)
@@ -238,13 +260,17 @@ def run_fol_program(prog):
         try:
             if op[0] == "up":
                 r = kb.obj[op[1]].upward()
-                lines.append(f"fup {op[1]}")
+                ex = kb.expand(op[1], "up")
+                lines.append(f"fup {op[1]}" if len(ex) == 1 else f"fpass up {ids(ex)}")
                 out.append("r " + q(impl.amount(r)))
             elif op[0] == "down":
                 idx = op[2]
                 o = kb.obj[op[1]]
+                ex = kb.expand(op[1], "down")
+                if len(ex) > 1:
+                    idx = None          # composite: the expanded pass has no index restriction
                 r = o.downward(index=idx) if idx is not None else o.downward()
-                lines.append(f"fdown {op[1]} {'-' if idx is None else idx}")
+                lines.append(f"fdown {op[1]} {'-' if idx is None else idx}" if len(ex) == 1 else f"fpass down {ids(ex)}")
                 out.append("r " + q(impl.amount(r)))
             elif op[0] in ("passup", "passdown"):
                 d = "up" if op[0] == "passup" else "down"
@@ -311,7 +337,7 @@ def rand_bounds(rng, classical_p=0.5, crossed_p=0.0):
 
 
 def gen_fol_kb(rng, n_preds=(2, 4), n_conn=(1, 3), max_arity=3, quant=False, worlds=True, weighted=True,
-               nots=True):
+               nots=True, composites=True):
     preds = []
     for i in range(rng.randint(*n_preds)):
         ar = rng.choice([1, 1, 2, 2, 3][: 3 + max_arity - 1]) if max_arity >= 3 else rng.randint(1, max_arity)
@@ -323,7 +349,9 @@ def gen_fol_kb(rng, n_preds=(2, 4), n_conn=(1, 3), max_arity=3, quant=False, wor
     roots = []
     for _ in range(rng.randint(*n_conn)):
         kind = rng.choice(["and", "or", "implies", "and", "or"] + (["not"] if nots else []))
-        ar = 1 if kind == "not" else 2 if kind == "implies" else rng.choice([2, 2, 3])
+        if composites and rng.random() < 0.12:
+            kind = rng.choice(["iff", "xor"])
+        ar = 1 if kind == "not" else 2 if kind in ("implies", "iff") else rng.choice([2, 2, 3])
         ops = []
         uvars = []
         for _ in range(ar):
@@ -349,7 +377,9 @@ def gen_fol_kb(rng, n_preds=(2, 4), n_conn=(1, 3), max_arity=3, quant=False, wor
                     if v not in uvars:
                         uvars.append(v)
         n = {"id": nid, "kind": kind, "ops": ops}
-        if kind != "not":
+        if kind in ("iff", "xor"):
+            n["act"] = rng.choice(["lukt", "lukt", "luk"])
+        elif kind != "not":
             n["act"] = rng.choice(["lukt", "lukt", "luk"])
             if weighted and rng.random() < 0.4:
                 n["w"] = [rng.choice([Fr(1, 2), ONE, Fr(2), ONE]) for _ in range(ar)]
@@ -387,6 +417,12 @@ def gen_fol_kb(rng, n_preds=(2, 4), n_conn=(1, 3), max_arity=3, quant=False, wor
                 if worlds and rng.random() < 0.25:
                     n["world"] = rng.choice(["axiom", "closed"])
                 nodes.append(n)
+                free_left = [] if k == "pred" else [v for v in vs if v not in qv]
+                if free_left and rng.random() < 0.5:
+                    # quantify the remaining variables with the OTHER kind: Exists(x, Forall(y, ...)) etc.
+                    nid += 1
+                    nodes.append({"id": nid, "kind": "exists" if n["kind"] == "forall" else "forall",
+                                  "ops": [[nid - 1, None]], "qvars": free_left if rng.random() < 0.7 else free_left[:1]})
                 new_roots.append(nid)
                 nid += 1
             else:
@@ -544,9 +580,9 @@ def run_store_program(prog):
             elif op[0] == "flush":
                 kb.model.flush()
                 lines.append("fflush"); out.append("ok")
-                for i in kb.order:          # a propositional formula forgets its data on flush
+                for i in kb.order:          # flush() on a propositional formula stores UNKNOWN as its data
                     if kb.obj[i].propositional:
-                        asserted[i] = {}
+                        asserted[i] = {(): (ZERO, ONE)}
             elif op[0] == "resetb":
                 kb.model.reset_bounds()
                 lines.append("fresetb"); out.append("ok")
@@ -583,7 +619,7 @@ def run_store_program(prog):
                 lo, hi = WORLDS[w]
                 world[op[1]] = (lo, hi)
                 if kb.obj[op[1]].propositional:
-                    asserted[op[1]] = {}
+                    asserted[op[1]] = {}          # the stored data of a propositional formula becomes the new default
                 lines.append(f"fworld {op[1]} {q(lo)},{q(hi)}"); out.append("ok")
             elif op[0] == "infer":
                 steps, r = kb.model.infer(max_steps=op[1])
@@ -673,10 +709,16 @@ def gen_store_program(rng, malformed_p=0.3):
         elif r < 0.9:
             i = rng.choice([0, 1, 2, 3, 4, 5])
             ops.append((rng.choice(["get", "state"]), i, rand_g(i)))
-        elif r < 0.95:
+        elif r < 0.93:
             ops.append(("infer", rng.choice([1, 2, 10])))
         else:
-            ops.append(("world", rng.choice([0, 1, 2]), w()))
+            # reset_world on first-order tables AND on the proposition-like (fully quantified) formula, whose stored data
+            # must follow the new default too; often followed by reset_bounds, which reads that stored data
+            ops.append(("world", rng.choice([0, 1, 2, 5, 5]), w()))
+            if rng.random() < 0.6:
+                ops.append((rng.choice(["get", "state"]), 5, []))
+                ops.append(("resetb",))
+                ops.append(("get", 5, []))
     return {"kb": desc, "ops": ops}
 
 
@@ -736,8 +778,32 @@ def run_c02(case):
     model.add_data({k: v for k, v in data.items() if k in model})
     gsteps, _ = model.infer(max_steps=300)
     ground = {}
+    tainted = {}
+
+    def taint(o):
+        # an instance is tainted when it or anything below it is contradictory in the ground run: there the two engines
+        # legitimately arrest differently, so the instance is not compared
+        k = id(o)
+        if k not in tainted:
+            b = impl.bounds_of(o)
+            tainted[k] = b[0] > b[1] or any(taint(x) for x in o.operands)
+        return tainted[k]
+
+    users = {}
+    for o in G.values():
+        for x in o.operands:
+            users.setdefault(id(x), []).append(o)
+
+    def taint_up(o, seen):
+        # ... or when something that USES it is contradictory (downward inference from a contradictory operator)
+        if id(o) in seen:
+            return False
+        seen.add(id(o))
+        b = impl.bounds_of(o)
+        return b[0] > b[1] or any(taint_up(u, seen) for u in users.get(id(o), []))
+
     for (i, g), o in G.items():
-        if o in model:
+        if o in model and not taint(o) and not taint_up(o, set()):
             ground[f"{i}:{gtxt(g)}"] = [q(x) for x in impl.bounds_of(o)]
     rec["meta"]["ground"] = ground
     rec["meta"]["ground_contra"] = bool(model.has_contradiction())
@@ -747,7 +813,7 @@ def run_c02(case):
 
 
 def gen_c02_case(rng, interp=True):
-    desc = gen_fol_kb(rng, n_preds=(2, 3), n_conn=(1, 3), max_arity=2, quant=False, worlds=True, weighted=True)
+    desc = gen_fol_kb(rng, n_preds=(2, 3), n_conn=(1, 3), max_arity=2, quant=False, worlds=True, weighted=True, composites=False)
     for n in desc["nodes"]:
         n.pop("world", None)            # connective worlds stay OPEN: the drawn interpretation need not satisfy them
     nc = rng.randint(2, 3)
@@ -767,7 +833,8 @@ def gen_c02_case(rng, interp=True):
                 # an unasserted atom keeps the world default, which is a consistent reading by itself
             else:
                 if rng.random() < 0.6:
-                    lo, hi = rand_bounds(rng, 0.5, 0.0)
+                    # some contradictory facts among consistent ones: a leak between groundings shows up at the consistent ones
+                    lo, hi = rand_bounds(rng, 0.5, 0.2)
                     facts.append((p["id"], list(g), lo, hi))
     ops = [("infer", 60)]
     return {"kb": desc, "facts": facts, "n_consts": nc, "ops": ops}
@@ -928,7 +995,16 @@ def gen_c12_case(rng):
         qbody = [preds[0]["id"], ["x"]]
     m = rng.randint(1, len(bvars))
     qv = list(bvars) if rng.random() < 0.6 else rng.sample(bvars, m)
-    qn = {"id": nid, "kind": kind, "ops": [qbody], "qvars": qv}
+    if len(bvars) >= 2 and rng.random() < 0.45:
+        # explicit nesting of quantifiers of DIFFERENT kinds, e.g. Exists(x, Forall(y, body))
+        other = "exists" if kind == "forall" else "forall"
+        inner_vars = [bvars[-1]] if rng.random() < 0.7 else bvars[1:]
+        outer_vars = [v for v in bvars if v not in inner_vars]
+        nodes.append({"id": nid, "kind": other, "ops": [qbody], "qvars": inner_vars})
+        nid += 1
+        qn = {"id": nid, "kind": kind, "ops": [[nid - 1, None]], "qvars": outer_vars}
+    else:
+        qn = {"id": nid, "kind": kind, "ops": [qbody], "qvars": qv}
     nodes.append(qn)
     nc = rng.randint(2, 3)
     atoms = []
@@ -944,3 +1020,42 @@ def gen_c12_case(rng):
         ops = [("passup",), ("down", nid, None), ("infer", 60)]
     return {"kb": {"preds": preds, "nodes": nodes, "roots": [nid]}, "atoms": atoms, "n_consts": nc,
             "seed": rng.randrange(1 << 30), "ops": ops}
+
+
+# ------------------------------------------------------------------ C18: losses on first-order models
+
+def run_fol_losses(case):
+    """a first-order program, then the built-in losses evaluated by Model.loss_fn on the state it left"""
+    import impl
+    L = impl.lnn()
+    impl.take_log()
+    kb = FolKB(case["kb"])
+    lines = kb.header_lines()
+    out = ["ok"] * len(lines)
+    ids = lambda l: ",".join(map(str, l)) if l else "-"
+    for i, g, lo, hi in case["facts"]:
+        kb.model.add_data({kb.obj[i]: {kb.cname(tuple(g)): (float(lo), float(hi))}})
+        lines.append(f"fact {i} {gtxt(tuple(g))} {q(lo)} {q(hi)}"); out.append("ok")
+    labels = case.get("labels", [])
+    for i, g, lo, hi in labels:
+        kb.model.add_labels({kb.obj[i]: {kb.cname(tuple(g)): (float(lo), float(hi))}})
+    steps, r = kb.model.infer(max_steps=case.get("max_steps", 6))
+    log = impl.take_log()
+    ups, downs = kb.calls(log, "upward"), kb.calls(log, "downward")
+    per_u, per_d = len(ups) // max(steps, 1), len(downs) // max(steps, 1)
+    reg = sorted(kb.registered_ids())
+    lines.append(f"finfer {EPS} {case.get('max_steps', 6)} {ids(reg)} {ids(ups[:per_u])} {ids(downs[:per_d])}")
+    out.append(f"n {steps} {q(impl.amount(r))}")
+    lines.append(kb.tab_line()); out.append(kb.tab_out())
+    cc, uc, sc = case["coeffs"]
+    lc = kb.model.loss_fn({L.Loss.CONTRADICTION: float(cc)})[0]
+    lu = kb.model.loss_fn({L.Loss.UNCERTAINTY: float(uc)})[0]
+    lines.append(f"floss c {q(cc)} {ids(reg)}"); out.append("l " + q(Fr(float(lc))))
+    lines.append(f"floss u {q(uc)} {ids(reg)}"); out.append("l " + q(Fr(float(lu))))
+    meta = {"errors": [], "tables": {i: {gtxt(g): [q(b[0]), q(b[1])] for g, b in kb.table(i).items()} for i in kb.order},
+            "alpha": {i: q(Fr(float(kb.obj[i].neuron.alpha))) for i in kb.order}, "registered": reg,
+            "closs": q(Fr(float(lc))), "uloss": q(Fr(float(lu)))}
+    if labels:
+        ls = kb.model.loss_fn({L.Loss.SUPERVISED: float(sc)})[0]
+        meta["sloss"] = q(Fr(float(ls)))
+    return {"lines": lines, "impl": out, "meta": meta}
